@@ -13,7 +13,8 @@ CHECKS="C01 C02 C03 C04 C05 C06 C07 C08 C09 C10 C11 C12 C13 C14 C15 C16 C17 C18 
 for b in ${BENIGN:?list of variations}; do
   git -C "$REPO_COPY" checkout -q -- .
   git -C "$REPO_COPY" apply "$PWD/seeded/benign/$b/patch.diff" || { echo "$b patch failed"; continue; }
-  for c in ${BENIGN_CHECKS:-$CHECKS}; do
+  eval "list=\${CHECKS_$b:-${BENIGN_CHECKS:-$CHECKS}}"       # a per-variation list: CHECKS_C11n="C10 C11"
+  for c in $list; do
     timeout 3600 ./check $c --tier quick > work/b_${b}_$c.log 2>&1
     rc=$?
     printf "%s\t%s\t%s\t%s\n" "$b" "$c" "$rc" "$(grep -c '^VIOLATION' work/b_${b}_$c.log)" >> $OUT
